@@ -562,9 +562,15 @@ example : (step toyH rootState (.deleteFile "alice" (rootAddress toyH) (toyH "al
 model was written against them; `Generated.keyFns_filetree` is recomputed from the source on every
 run (the declarations are listed in Generated/KeyFacts.lean). -/
 def C10_expectedKeys : List (String × String) := [
+  ("x/filetree/types/key_files.go:var _…", "9f4fce2c5ae85adc"),
+  ("x/filetree/types/key_files.go:const FilesKeyPrefix…", "0f4f242d7ed948a5"),
   ("x/filetree/types/key_files.go:FilesKey", "6dd50d273d2b852e"),
+  ("x/filetree/types/key_pubkey.go:var _…", "9f4fce2c5ae85adc"),
+  ("x/filetree/types/key_pubkey.go:const PubkeyKeyPrefix…", "119e2d46099f5836"),
   ("x/filetree/types/key_pubkey.go:PubkeyKey", "f20db6b451653040"),
-  ("x/filetree/types/keys.go:KeyPrefix", "caccc65e7667915d")]
+  ("x/filetree/types/keys.go:const ModuleName…", "f39a1b37036ddc2e"),
+  ("x/filetree/types/keys.go:KeyPrefix", "caccc65e7667915d"),
+  ("x/filetree/types/keys.go:const TrackerKey…", "f4db5adcceb09e9b")]
 
 theorem C10_store_keys_as_modelled : Generated.keyFns_filetree = C10_expectedKeys := by decide
 
